@@ -252,6 +252,9 @@ def ceiling_clamp(cx, iid):
     config_verbatim(cx, "C13.i")
     from props.shared import ctor_initial_state
     ctor_initial_state(cx, "C13.j")
+    # the emitters' private copy of the credit is the connection's credit, deficit included
+    from props.shared import emitter_wiring
+    emitter_wiring(cx, "C13.k")
 
 
 SELFTEST = [
